@@ -337,6 +337,16 @@ def run(rep):
         if verdict:
             rep.violation(verdict, {"kind": "two-interfaces", "seed": seed})
             break
+    # route functions that wait for answers of their own (spec/Nested.tla): no limit on the message threads of the main loop
+    for lim, expect in ((8, None), (3, "NoDeadlock")):
+        rn, _ = tlc.run("Nested", f"SPECIFICATION Spec\nCONSTANTS N = {4 if rep.tier == 'thorough' else 3}\n Limit = {lim}\nINVARIANT NoDeadlock\nPROPERTY AllAnswered\n",
+                        workers=4, timeout=900)
+        if expect is None:
+            tlc.must_ok(rn, "Nested")
+            rep.tlc("Nested (no thread limit)", rn)
+        elif rn.violated not in (expect, "AllAnswered", "temporal"):
+            raise tlc.TlcError(f"vacuity self-test: Nested.tla with a limit of {lim} message threads does not deadlock (got {rn.violated})")
+    rep.notes["bounded_message_threads_violate"] = "NoDeadlock (Nested.tla)"
     for n in ((90,) if rep.tier == "quick" else (45, 90, 130)):
         seed = rng.getrandbits(30)
         verdict = run_many_nested(seed, n)
